@@ -12,38 +12,38 @@ PROOF_ASSUME = [
 ]
 
 PROPS = {
-    "C01": dict(level="proof", kinds=[("incl", 30), ("inclall", 1)], n=dict(quick=12000, thorough=300000, search=12000),
+    "C01": dict(level="proof", kinds=[("incl", 30), ("inclall", 1)], n=dict(quick=12000, thorough=200000, search=12000),
                 rule="random / derived / correlated pairs of explicit tree automata (≤5 states each, ranks ≤2); each pair is run "
                      "through all 8 selections + the default overload (API) and judged against the proved reference inclM; "
                      "non-trivial = L(A) non-empty (so the verdict is not vacuous); distinct = distinct case text",
                 assumptions=PROOF_ASSUME),
     "C02": dict(level="proof", kinds=[("union", 3), ("unionpre", 2), ("uniondisj", 2), ("isect", 3), ("isectbu", 3)],
-                n=dict(quick=3000, thorough=60000, search=4000),
+                n=dict(quick=3000, thorough=300000, search=4000),
                 rule="pairs of explicit tree automata with overlapping / sparse numbers; results judged by isUnionM / isIsectM "
                      "(proved), the reported maps by coverage, injectivity and the image / product certificate; operands "
                      "re-read after the call; non-trivial = result language non-empty or maps pre-filled; distinct = case text",
                 assumptions=PROOF_ASSUME),
-    "C03": dict(level="proof", kinds=[("trim", 1)], n=dict(quick=4000, thorough=80000, search=4000),
+    "C03": dict(level="proof", kinds=[("trim", 1)], n=dict(quick=4000, thorough=200000, search=4000),
                 rule="automata with dead children, final states without rules, unreachable rule owners (shortcut shape); "
                      "RemoveUnreachableStates / RemoveUselessStates / IsLangEmpty judged by equivM, allReachableB, allUsefulB, "
                      "emptyM and compared exactly with the models; non-trivial = some rule dropped by one of the operations",
                 assumptions=PROOF_ASSUME),
-    "C04": dict(level="proof", kinds=[("simdown", 1), ("simup", 1)], n=dict(quick=3000, thorough=60000, search=4000),
+    "C04": dict(level="proof", kinds=[("simdown", 1), ("simup", 1)], n=dict(quick=3000, thorough=300000, search=4000),
                 rule="automata numbered 0..n-1 in random order with n passed (downward: arbitrary, with useless and leaf-only "
                      "states; upward: trimmed by construction, precondition re-checked by the driver); the relation read back "
                      "with get(q,r) on all states is compared exactly with the greatest downward / upward simulation computed "
                      "by naive refinement; non-trivial = relation strictly between identity and full",
                 assumptions=PROOF_ASSUME),
-    "C05": dict(level="proof", kinds=[("reduce", 1)], n=dict(quick=3000, thorough=60000, search=4000),
+    "C05": dict(level="proof", kinds=[("reduce", 1)], n=dict(quick=3000, thorough=300000, search=4000),
                 rule="automata with duplicated (simulation-equivalent) states, sparse numbers, useless states; Reduce judged by "
                      "equivM, the two counts and states ⊆; non-trivial = the number of states decreased",
                 assumptions=PROOF_ASSUME),
-    "C06": dict(level="proof", kinds=[("compl", 1)], n=dict(quick=2500, thorough=50000, search=3000),
+    "C06": dict(level="proof", kinds=[("compl", 1)], n=dict(quick=2500, thorough=200000, search=3000),
                 rule="automata over a fresh on-the-fly alphabet (1–4 symbols, ranks ≤2, unused symbols, nullary-only alphabets, "
                      "empty and universal languages); Complement judged by isComplM (proved, both clauses); non-trivial = both "
                      "L(A) and L(C) non-empty",
                 assumptions=PROOF_ASSUME),
-    "C07": dict(level="proof", kinds=[("bddincl", 30), ("bddinclall", 1)], n=dict(quick=6000, thorough=120000, search=6000),
+    "C07": dict(level="proof", kinds=[("bddincl", 30), ("bddinclall", 1)], n=dict(quick=6000, thorough=200000, search=6000),
                 rule="the pairs of C01 (random / derived / split / correlated shapes) loaded from Timbuk text into both BDD "
                      "encodings: top-down × {rec, rec+cache} × {no simulation, simulation computed by the library's bottom-up "
                      "path for the sanitised operands}, bottom-up × {upward, downward+simulation, default overload}; each verdict "
@@ -51,7 +51,7 @@ PROPS = {
                      "reference); all 128 option words on both encodings must throw NotImplementedException unless implemented; "
                      "non-trivial = L(A) non-empty",
                 assumptions=PROOF_ASSUME),
-    "C08": dict(level="proof", kinds=[("bddh", 6), ("bddtd", 1)], n=dict(quick=2500, thorough=50000, search=3000),
+    "C08": dict(level="proof", kinds=[("bddh", 6), ("bddtd", 1)], n=dict(quick=2500, thorough=200000, search=3000),
                 rule="histories over a pool of automata in one BDD encoding (bottom-up or top-down): load from Timbuk text, "
                      "copy, assign, destroy, load into an existing automaton (AddTransition on a possibly shared table), "
                      "SetStateFinal, Union, UnionDisjointStates, Intersection, RemoveUnreachableStates, RemoveUselessStates; "
@@ -59,21 +59,21 @@ PROPS = {
                      "(proved), every other automaton must keep its language; plus bottom-up → top-down conversion; non-trivial "
                      "= some intersection non-empty or conversion of a non-empty language",
                 assumptions=PROOF_ASSUME),
-    "C09": dict(level="proof", kinds=[("nfah_incl", 1)], n=dict(quick=5000, thorough=100000, search=5000),
+    "C09": dict(level="proof", kinds=[("nfah_incl", 1)], n=dict(quick=5000, thorough=300000, search=5000),
                 rule="pairs of NFAs (several start states, start∧final, dead / unreachable states, symbols in one operand only, "
                      "overlapping and sparse numbers; B mutated from / a nondeterministic split of A); antichains, congruence "
                      "depth / breadth and the default overload through the API on raw operands, each verdict judged against the "
                      "proved reference inclW (both directions per pair); a call that does not return within 5 s counts as a "
                      "violation (state spaces are ≤ 2^9); non-trivial = L(A) non-empty",
                 assumptions=PROOF_ASSUME),
-    "C10": dict(level="proof", kinds=[("nfah_ops", 1)], n=dict(quick=3000, thorough=60000, search=4000),
+    "C10": dict(level="proof", kinds=[("nfah_ops", 1)], n=dict(quick=3000, thorough=300000, search=4000),
                 rule="histories of Union / UnionDisjointStates (repeated with one left operand and right operands sharing "
                      "numbers) / Intersection / Reverse / RemoveUnreachableStates / RemoveUselessStates / GetCandidateTree on a "
                      "pool of NFAs incl. results of earlier steps; every result judged by isUnionW / isIsectW / equivW / inclW / "
                      "emptyW (proved), every live automaton re-read after every step; non-trivial = some product or witness "
                      "non-empty",
                 assumptions=PROOF_ASSUME),
-    "C16": dict(level="proof", kinds=[("lts", 1)], n=dict(quick=4000, thorough=80000, search=4000),
+    "C16": dict(level="proof", kinds=[("lts", 1)], n=dict(quick=4000, thorough=200000, search=4000),
                 rule="LTSs with 1–8 states (12 %: 13–30 states so that the engine's counter rows, block splits and remove "
                      "lists are exercised), 1–4 labels, parallel edges, isolated states, labels with one edge; random "
                      "partitions into non-empty blocks with random preorders (reflexive-transitive closures) on the blocks; all "
@@ -81,7 +81,7 @@ PROPS = {
                      "inside the initial relation computed by naive refinement; non-trivial = result strictly between identity "
                      "and full",
                 assumptions=PROOF_ASSUME + ["the partition-relation engine itself is not mirrored (950 lines of pointer code without observable internal state): it is tied to the proved reference by input/output behaviour only"]),
-    "C11": dict(level="proof", kinds=[("tah_hist", 3), ("nfah_hist", 1)], n=dict(quick=3000, thorough=60000, search=4000),
+    "C11": dict(level="proof", kinds=[("tah_hist", 3), ("nfah_hist", 1)], n=dict(quick=3000, thorough=300000, search=4000),
                 rule="operation histories (5–18 steps) over a pool of live explicit tree automata (and NFAs): construct, copy "
                      "(with / without transitions / final states), copy-assign, self-assign, move, move-assign, AddTransition, "
                      "SetStateFinal, EraseFinalStates, Clear, destroy, and library operations whose results share storage "
@@ -90,14 +90,14 @@ PROPS = {
                      "show exactly the value the value-semantics model holds for it; non-trivial = at least 3 steps executed "
                      "while several automata were alive and at least one mutation",
                 assumptions=PROOF_ASSUME),
-    "C12": dict(level="proof", kinds=[("tah_store", 1)], n=dict(quick=3000, thorough=60000, search=4000),
+    "C12": dict(level="proof", kinds=[("tah_store", 1)], n=dict(quick=3000, thorough=300000, search=4000),
                 rule="sequences (4–24) of AddTransition (both overloads; repeated rules, nullary rules, one symbol number at "
                      "several arities), SetStateFinal, SetStatesFinal, EraseFinalStates, Clear on one automaton, interleaved with "
                      "ContainsTransition / IsStateFinal probes (present rules, near misses); after every step the iteration "
                      "(multiset), GetAcceptTrans, operator[] for every used state and two others (with empty()), GetUsedStates, "
                      "AreTransitionsEmpty are compared with the abstract rule / final sets; non-trivial = at least one mutation",
                 assumptions=PROOF_ASSUME),
-    "C17": dict(level="proof", kinds=[("mth", 1)], n=dict(quick=2500, thorough=50000, search=3000),
+    "C17": dict(level="proof", kinds=[("mth", 1)], n=dict(quick=2500, thorough=200000, search=3000),
                 rule="histories (5–15 steps) of construct (cubes with don't-care positions), leaf, copy, assign, self-assign, "
                      "unary / binary / ternary apply with several leaf operations, in-place apply, Project, Rename, ExtendWith, "
                      "GetMtbddForPrefix, GetPaths, GetValue with don't-cares, destroy, inside one process-wide node store; after "
@@ -105,14 +105,14 @@ PROPS = {
                      "of all live handles is compared with equality of the model's canonical values; non-trivial = at least "
                      "one apply in the history",
                 assumptions=PROOF_ASSUME + ["pointer equality of the C++ is structural equality of the model's reduced ordered diagrams (canonicity theorem); the unique-table discipline that justifies this is C18's subject"]),
-    "C18": dict(level="proof", kinds=[("mthrc", 1)], n=dict(quick=2500, thorough=50000, search=3000),
+    "C18": dict(level="proof", kinds=[("mthrc", 1)], n=dict(quick=2500, thorough=200000, search=3000),
                 rule="the same histories as C17 without Project, different seeds; after EVERY step the sizes of the two unique tables (read "
                      "through the guarded hooks) must equal the numbers of distinct leaves / internal nodes reachable from the "
                      "live handles of the model (no leak, no premature release), values of all live diagrams must be unchanged "
                      "by operations on other handles, and after destroying every handle both tables are back to their initial "
                      "sizes; ASan reports use-after-free / double free; non-trivial = at least one apply in the history",
                 assumptions=PROOF_ASSUME),
-    "C13": dict(level="proof", kinds=[("parse", 1)], n=dict(quick=12000, thorough=400000, search=12000),
+    "C13": dict(level="proof", kinds=[("parse", 1)], n=dict(quick=12000, thorough=200000, search=12000),
                 rule="texts: valid files with adversarial names, ranked tree automata, word automata, byte- and token-level "
                      "mutations of them, keyword soups, random bytes (incl. NUL, 0x80, 0xff, VT, FF, CR), shipped small files and "
                      "their mutations; TimbukParser::ParseString is compared with the model parser (accept / throw, the whole "
@@ -120,7 +120,7 @@ PROPS = {
                      "load→dump→load→dump to the same rules and final states under the same names; the watchdog and the "
                      "sanitizers watch for hangs and memory errors; non-trivial = the text is accepted by the parser",
                 assumptions=PROOF_ASSUME),
-    "C19": dict(level="proof", kinds=[("meta", 6), ("metaf", 1)], n=dict(quick=1000, thorough=40000, search=1000), timeout=240,
+    "C19": dict(level="proof", kinds=[("meta", 6), ("metaf", 1)], n=dict(quick=1000, thorough=20000, search=1000), timeout=240,
                 rule="metamorphic runs on generated pairs AND on shipped corpus automata (tests/aut_timbuk_smaller with its 400 "
                      "expected verdicts, small_timbuk, moderate_artmc_timbuk, artmc_timbuk; no brute-force reference exists for "
                      "them): each pair and a twin pair (random bijective renaming onto sparse numbers, shuffled rule insertion "
@@ -146,12 +146,12 @@ PROPS = {
                 assumptions=["what no model can exhibit (reads of uninitialised or freed memory, out-of-bounds accesses, signed overflow, iterator invalidation) is observed, not proved: the claim is partial",
                              "uninitialised reads are only exposed through the poisoning pattern and, in the thorough tier, valgrind memcheck",
                              "the bookkeeping whose failure IS the undefined behaviour is proved on the models: reference counts and table membership (C18), copy-on-write uniqueness before mutation (C11), the non-emptiness invariants the iterators rely on (C12), freshness of product-state numbers (C02)"]),
-    "C14": dict(level="proof", kinds=[("rename", 1)], n=dict(quick=3000, thorough=60000, search=4000),
+    "C14": dict(level="proof", kinds=[("rename", 1)], n=dict(quick=3000, thorough=300000, search=4000),
                 rule="ReindexStates (functor / functor without final states / into an existing destination / weak translator / "
                      "fresh translator), CollapseStates, TranslateSymbols with injective, merging, identity and sparse maps, "
                      "one symbol at several arities; exact equality with the image automaton; non-trivial = merging map",
                 assumptions=PROOF_ASSUME),
-    "C15": dict(level="proof", kinds=[("cand", 1)], n=dict(quick=4000, thorough=80000, search=4000),
+    "C15": dict(level="proof", kinds=[("cand", 1)], n=dict(quick=4000, thorough=200000, search=4000),
                 rule="automata with leaf-only languages, deep witnesses, unproductive final states; GetCandidateTree judged by "
                      "sub-automaton test (else inclM) and emptyM on both; non-trivial = L(A) non-empty",
                 assumptions=PROOF_ASSUME),
